@@ -5,6 +5,9 @@
 # Never touches /repo: works on a scratch copy of /repo and /verif under /root/verif-scratch (removed at the end).
 # Writes selftest_results.txt.
 # VERIF_SRC=<dir> runs the checks of a snapshot of /verif (e.g. `git archive HEAD`) instead of the working copy.
+# SECTIONS="prefix mutants" leaves the seeded/ section (300 runs, hours) out; tools/selftest_seeded.py then fills that
+# section from the tables the seed regressions wrote (tools/run_seeds.sh), naming commit and VERIF_SEED of each.
+SECTIONS=${SECTIONS:-prefix mutants seeded}
 SRC=${VERIF_SRC:-/verif}
 cd $SRC
 S=/root/verif-scratch
@@ -25,7 +28,9 @@ run_check() { # prop -> prints KILLED/survived + first oracle
 }
 echo "# sensitivity self-test, /repo at $(git -C /repo log --format=%h -1), /verif at $(git -C /verif log --format=%h -1), VERIF_SEED=${VERIF_SEED:-1}" | tee -a $out
 echo "## trees just before each fix commit (defect present again)" | tee -a $out
+case " $SECTIONS " in *" prefix "*) ;; *) echo "(section not run)" | tee -a $out;; esac
 grep '^fixed:' known_findings.txt | while read -r _ prop commit rest; do
+  case " $SECTIONS " in *" prefix "*) ;; *) continue;; esac
   p=${prop#property=}
   sync_scratch
   git -C /repo archive ${commit}^ src postgres redis sync sqlite r2d2 diesel runtime | tar -x -m -C $S/repo
@@ -33,12 +38,14 @@ grep '^fixed:' known_findings.txt | while read -r _ prop commit rest; do
 done
 echo "## mutants/" | tee -a $out
 for f in mutants/*.patch; do
+  case " $SECTIONS " in *" mutants "*) ;; *) continue;; esac
   p=$(basename $f | cut -d- -f1)
   sync_scratch
   if (cd $S/repo && patch -p1 -s --dry-run < $SRC/$f >/dev/null 2>&1); then (cd $S/repo && patch -p1 -s < $SRC/$f); echo "$(basename $f) ($p): $(run_check $p)" | tee -a $out; else echo "$(basename $f): does not apply to HEAD (its defect is covered by the pre-fix tree above)" | tee -a $out; fi
 done
 echo "## seeded/" | tee -a $out
 for d in seeded/C*-*/; do
+  case " $SECTIONS " in *" seeded "*) ;; *) continue;; esac
   id=$(basename $d); p=${id%%-*}
   sync_scratch
   if (cd $S/repo && patch -p1 -s --dry-run < $SRC/$d/patch.diff >/dev/null 2>&1); then (cd $S/repo && patch -p1 -s < $SRC/$d/patch.diff); echo "$id ($p): $(run_check $p)" | tee -a $out; else echo "$id: does not apply to HEAD" | tee -a $out; fi
